@@ -1041,8 +1041,19 @@ func (b *bitstream) readN(n uint64) ([]byte, error) {
 		return nil, nil
 	}
 
-	bs := make([]byte, n)
-	actual, err := io.ReadFull(b.in, bs)
+	// The length comes from the input and, at the top level, is not bounded by
+	// anything: only allocate it up front when it is small, otherwise let the
+	// buffer grow as data actually arrives.
+	const preallocate = 64 * 1024
+	if n > math.MaxInt64 {
+		return nil, &UnexpectedEOFError{b.pos}
+	}
+
+	var buf bytes.Buffer
+	if n <= preallocate {
+		buf.Grow(int(n))
+	}
+	actual, err := io.CopyN(&buf, b.in, int64(n))
 	b.pos += uint64(actual)
 
 	if err == io.EOF || err == io.ErrUnexpectedEOF {
@@ -1052,7 +1063,7 @@ func (b *bitstream) readN(n uint64) ([]byte, error) {
 		return nil, &IOError{err}
 	}
 
-	return bs, nil
+	return buf.Bytes(), nil
 }
 
 // Read1 reads the next byte of input from the underlying stream, returning
